@@ -144,64 +144,93 @@ func runCompleteness(c Case) *pt.Failure {
 	if os.Getenv("VERIF_DEBUG") != "" {
 		fmt.Printf("DEBUG result %+v\n%s\n", res, atenv.Tail(env.Srv.Journal(), 30))
 	}
-	if res.Failed() {
-		return nil
+	// one timeline of engine statements and coordinator messages (shared logical clock)
+	type item struct {
+		seq int64
+		je  *memsql.Entry
+		reg *message.BranchRegisterRequest
 	}
-	// writes of the committed local transaction
-	want := map[string]string{} // "TABLE:key" -> statement
-	commitSeq := int64(0)
-	for _, e := range env.Srv.Journal() {
-		if (e.Kind == "E" || e.Kind == "PE") && e.Err == "" && !strings.Contains(strings.ToLower(e.Query), "undo_log") {
+	var tl []item
+	journal := env.Srv.Journal()
+	for i := range journal {
+		tl = append(tl, item{seq: journal[i].Seq, je: &journal[i]})
+	}
+	for _, e := range env.TC.Events() {
+		if b, ok := e.Body.(message.BranchRegisterRequest); ok && e.Dir == "c2s" {
+			b := b
+			tl = append(tl, item{seq: e.Seq, reg: &b})
+		}
+	}
+	sort.Slice(tl, func(i, j int) bool { return tl[i].seq < tl[j].seq })
+	// per connection: writes of the open local transaction; at its COMMIT (or at once for a statement
+	// outside any transaction) they must be covered by the lock keys registered since the previous commit
+	pending := map[int]map[string]string{}
+	inTx := map[int]bool{}
+	registered := map[string]bool{}
+	var raw []string
+	var missing []string
+	settle := func(conn int) {
+		for k, st := range pending[conn] {
+			last.written++
+			if !registered[k] {
+				missing = append(missing, k+"  ← "+st)
+			}
+		}
+		delete(pending, conn)
+		registered = map[string]bool{}
+	}
+	for _, it := range tl {
+		if it.reg != nil {
+			for k := range lockRows(it.reg.LockKey) {
+				registered[k] = true
+			}
+			raw = append(raw, it.reg.LockKey)
+			continue
+		}
+		e := it.je
+		switch e.Kind {
+		case "BEGIN":
+			if e.Err == "" {
+				inTx[e.Conn] = true
+			}
+		case "ROLLBACK":
+			delete(pending, e.Conn)
+			inTx[e.Conn] = false
+		case "COMMIT":
+			if e.Err == "" {
+				settle(e.Conn)
+			} else {
+				delete(pending, e.Conn)
+			}
+			inTx[e.Conn] = false
+		case "E", "PE":
+			if e.Err != "" || strings.Contains(strings.ToLower(e.Query), "undo_log") {
+				continue
+			}
 			for _, w := range e.Writes {
 				for ti, n := range names {
-					if strings.EqualFold(n, w.Table) {
-						row := w.After
-						if row == nil {
-							row = w.Before
-						}
-						want[strings.ToUpper(n)+":"+keyText(c.Tables[ti], row)] = e.String()
-						if w.Before != nil && w.After != nil && keyText(c.Tables[ti], w.Before) != keyText(c.Tables[ti], w.After) {
-							want[strings.ToUpper(n)+":"+keyText(c.Tables[ti], w.Before)] = e.String()
-						}
+					if !strings.EqualFold(n, w.Table) {
+						continue
+					}
+					if pending[e.Conn] == nil {
+						pending[e.Conn] = map[string]string{}
+					}
+					if w.Before != nil {
+						pending[e.Conn][strings.ToUpper(n)+":"+keyText(c.Tables[ti], w.Before)] = e.String()
+					}
+					if w.After != nil {
+						pending[e.Conn][strings.ToUpper(n)+":"+keyText(c.Tables[ti], w.After)] = e.String()
 					}
 				}
 			}
-		}
-		if e.Kind == "COMMIT" && e.Err == "" {
-			commitSeq = e.Seq
-		}
-	}
-	last.written = len(want)
-	if len(want) == 0 {
-		return nil
-	}
-	got := map[string]bool{}
-	var regSeq int64
-	var raw []string
-	for _, e := range env.TC.Events() {
-		if b, ok := e.Body.(message.BranchRegisterRequest); ok && e.Dir == "c2s" {
-			for k := range lockRows(b.LockKey) {
-				got[k] = true
+			if !inTx[e.Conn] {
+				settle(e.Conn)
 			}
-			raw = append(raw, b.LockKey)
-			regSeq = e.Seq
-		}
-	}
-	if len(raw) == 0 {
-		return pt.Failf("C03/no-register/"+stmtKinds(c.Branch), "the local transaction wrote %d rows but no branch was registered", len(want))
-	}
-	if regSeq > commitSeq {
-		return pt.Failf("C03/register-after-commit", "BranchRegister (#%d) was sent after the local COMMIT (#%d)", regSeq, commitSeq)
-	}
-	var missing []string
-	for k, st := range want {
-		if !got[k] {
-			missing = append(missing, k+"  ← "+st)
 		}
 	}
 	sort.Strings(missing)
 	if len(missing) > 0 {
-		return pt.Failf("C03/missing-lock-key/"+stmtKinds(c.Branch), "rows written without a global lock key (registered lock keys %q):\n  %s", raw, strings.Join(missing, "\n  "))
+		return pt.Failf("C03/missing-lock-key/"+c.Branch.Mode+"/"+stmtKinds(c.Branch), "rows committed without a global lock key registered before the commit (lock keys registered in this global transaction: %q):\n  %s\ncaller saw %+v\n%s", raw, strings.Join(missing, "\n  "), res, atenv.Tail(journal, 30))
 	}
 	return nil
 }
@@ -579,8 +608,11 @@ func TestPropCompleteness(t *testing.T) {
 		tables := []gen.TableSpec{gen.DrawTable(rt, 0)}
 		br := gen.Branch{Mode: rapid.SampledFrom([]string{"auto", "tx"}).Draw(rt, "mode"), Via: rapid.SampledFrom([]string{"db", "conn"}).Draw(rt, "via")}
 		ns := 1
-		if br.Mode == "tx" {
+		if br.Mode == "tx" || br.Via == "conn" {
 			ns = rapid.IntRange(1, 3).Draw(rt, "nStmts")
+			if br.Mode == "auto" && ns >= 2 && rapid.IntRange(0, 2).Draw(rt, "mixed") == 0 {
+				br.Mode = "mixed"
+			}
 		}
 		for i := 0; i < ns; i++ {
 			br.Stmts = append(br.Stmts, gen.DrawStmt(rt, tables, stmtOptions()))
